@@ -14,7 +14,7 @@ RULE = ("IDL-driven values for every struct reachable from FileMetaData and Page
         "i8/i16 fields, long-form field headers); then to_bytes / pickle / copy.  non-trivial = bytes were produced and decoded by the "
         "reference; distinct = distinct (struct, route, size class, field-presence signature) tuples")
 ASSUMPTIONS = ["vf/ref/compact.py implements the Thrift compact protocol specification; spec/parquet.thrift is the Parquet IDL (frozen copy)"]
-CASE_TIMEOUT = 25
+CASE_TIMEOUT = 60
 HANG_IS_VIOLATION = True      # a corrupted heap may also dead-lock inside malloc instead of aborting
 HANG_CONFIRM_FACTOR = 2
 
@@ -76,7 +76,8 @@ def reserialise_case(case):
                     {"name": "s", "ptype": "BYTE_ARRAY", "converted": 0, "rows": [("v%d" % x).encode() for x in rng.integers(0, 50, n)], "use_dict": bool(j % 2), "page_rows": [7]}]
             rid0 += n
             spec = {"codec": "UNCOMPRESSED", "columns": cols, "row_groups": [n], "column_orders": True, "created_by": "parquet-mr version 1.12.3 (build abc)",
-                    "kv": [("writer.note", "kept verbatim \u00e9"), ("k%d" % j, "v")] if j == 0 else [("writer.note", "kept verbatim \u00e9")]}
+                    # (a key may repeat: key_value_metadata is a list in the format)
+                    "kv": [("writer.note", "kept verbatim \u00e9"), ("k%d" % j, "v"), ("dup", "first"), ("between", "x"), ("dup", "second")] if j == 0 else [("writer.note", "kept verbatim \u00e9")]}
             data, fmd = W.build_file(spec)
             p = os.path.join(root, "part.%d.parquet" % j)     # the naming append / renumbering expect
             with open(p, "wb") as f:
@@ -102,11 +103,13 @@ def reserialise_case(case):
                 a, b = CP_.normalise(src.get(fld)), CP_.normalise(m.get(fld))
                 if a != b:
                     res["failures"].append({"kind": "value_changed", "path": what + "." + fld, "expected": repr(a)[:80], "got": "<absent>" if m.get(fld) is None else repr(b)[:80], **ctx})
-            kv_src = {e["key"]: e["value"] for e in (src.get("key_value_metadata") or [])}
-            kv_got = {e["key"]: e["value"] for e in (m.get("key_value_metadata") or [])}
-            for k_, v_ in kv_src.items():
-                if kv_got.get(k_) != v_ and not (what.startswith("update") and k_ in (b"k0",)):
-                    res["failures"].append({"kind": "value_changed", "path": what + ".key_value_metadata[%r]" % k_, "expected": repr(v_)[:60], "got": repr(kv_got.get(k_))[:60], **ctx})
+            from collections import Counter
+            kv_src = Counter((e["key"], e["value"]) for e in (src.get("key_value_metadata") or []))
+            kv_got = Counter((e["key"], e["value"]) for e in (m.get("key_value_metadata") or []))
+            for (k_, v_), n_ in kv_src.items():
+                if kv_got.get((k_, v_), 0) < n_ and not (what.startswith("update") and k_ in (b"k0",)):
+                    res["failures"].append({"kind": "value_changed", "path": what + ".key_value_metadata[%r]" % k_, "expected": repr(v_)[:60],
+                                            "got": repr([v2 for (k2, v2) in kv_got if k2 == k_])[:60], **ctx})
             counters["reserialised_footers_checked"] = counters.get("reserialised_footers_checked", 0) + 1
         from vf.ref import compact as CP_
         if op == "selection":
